@@ -93,6 +93,7 @@ func runC06(w *mc.Worker) {
 		stages = []bound{{"L2-D16", 2, 16, 2, true}, {"L3-D10", 3, 10, 2, true}, {"L4-D5", 4, 5, 1, true}}
 	}
 	totals := c06Totals(w.Tier)
+	c06Corner(w)
 	c06Spellings(w, append(c06Totals("quick")[:0:0], append(c06Totals("quick"), big.NewInt(10000), big.NewInt(99999))...))
 	for _, b := range stages {
 		b := b
@@ -352,6 +353,114 @@ func c06Spellings(w *mc.Worker, totals []*big.Int) {
 				}
 				if total.Sign() > 0 {
 					w.Sample("spelling", c)
+				}
+			})
+		})
+	})
+}
+
+// c06Corner: (1) two `remaining` clauses: no split can give both of them "one minus the
+// others" unless that is zero, so such an allotment must be rejected; (2) an allotment whose
+// portions do not add up to one must be rejected even when the branch it sits in receives
+// nothing (behind a cap that takes everything, or under a 0% share).
+func c06Corner(w *mc.Worker) {
+	mk := func(side int, allots []gen.Allot) *gen.Program {
+		prog := &gen.Program{Vars: []*gen.VarDecl{{Type: &gen.TypeName{Name: "monetary"}, Name: gen.V("m")}}}
+		if side == 0 {
+			d := &gen.DstAllot{}
+			for i, a := range allots {
+				d.Items = append(d.Items, &gen.DstAllotItem{A: a, To: &gen.To{D: &gen.DstAccount{E: gen.Acct(fmt.Sprintf("d%d", i))}}})
+			}
+			prog.Stmts = []gen.Stmt{&gen.Send{Sent: &gen.SentLit{E: gen.V("m")}, Src: &gen.SrcAccount{E: gen.Acct("world")}, Dst: d}}
+		} else {
+			sa := &gen.SrcAllot{}
+			for i, a := range allots {
+				sa.Items = append(sa.Items, &gen.SrcAllotItem{A: a, From: &gen.SrcOverdraft{Addr: gen.Acct(fmt.Sprintf("s%d", i))}})
+			}
+			prog.Stmts = []gen.Stmt{&gen.Send{Sent: &gen.SentLit{E: gen.V("m")}, Src: sa, Dst: &gen.DstAccount{E: gen.Acct("x")}}}
+		}
+		return prog
+	}
+	run := func(text string, total int64) *Out {
+		pr, ok := parseQuiet(text)
+		if !ok {
+			return &Out{Panic: "unparsable"}
+		}
+		return RunReal(pr, map[string]string{"m": fmt.Sprintf("COIN %d", total)}, env.New(env.Exact, nil, nil), nil)
+	}
+	w.Stage("two-remaining", "allotments of 3 clauses with two `remaining` and one portion k/d (d <= 4, k < d), every position, both sides, totals 0..6", func() {
+		w.Outer("two-remaining/vec", 0, func(o *mc.Explorer) {
+			side := o.Choose(2)
+			pos := o.Choose(3) // position of the portion clause
+			d := 1 + o.Choose(4)
+			k := o.Choose(d) // k < d: the others leave something for `remaining`
+			var as []gen.Allot
+			for i := 0; i < 3; i++ {
+				if i == pos {
+					as = append(as, gen.Port(fmt.Sprintf("%d/%d", k, d)))
+				} else {
+					as = append(as, &gen.Remaining{})
+				}
+			}
+			text := gen.Text(mk(side, as))
+			if !w.Mine(text) {
+				return
+			}
+			w.Owned()
+			w.Inner(0, func(in *mc.Explorer) {
+				total := int64(in.Choose(7))
+				out := run(text, total)
+				w.Eval(fmt.Sprint(text, total), true, "two-remaining:"+out.Class())
+				if out.Err == nil && out.Panic == "" {
+					w.Violation("C06.two-remaining-accepted", "an allotment with two `remaining` clauses (each would stand for one minus the others) was accepted", len(text), Case{Script: text, Vars: map[string]string{"m": fmt.Sprintf("COIN %d", total)}, Observed: postingsStr(out.Postings)})
+				}
+				w.Sample("two-remaining", Case{Script: text, Observed: out.Class()})
+			})
+		})
+	})
+	w.Stage("unreached-bad-sum", "a destination allotment whose portions do not add up to one, placed where nothing reaches it (after a cap that takes everything, under a 0% share, in a later clause), totals 0..12", func() {
+		bad := [][]string{{"1/2", "1/4"}, {"1/2", "2/3"}, {"1/3"}, {"$p", "1/2"}}
+		w.Outer("unreached-bad-sum/shape", 0, func(o *mc.Explorer) {
+			v := bad[o.Choose(len(bad))]
+			shape := o.Choose(3)
+			inner := &gen.DstAllot{}
+			for i, t := range v {
+				inner.Items = append(inner.Items, &gen.DstAllotItem{A: allotOf(t), To: &gen.To{D: &gen.DstAccount{E: gen.Acct(fmt.Sprintf("n%d", i))}}})
+			}
+			var dst gen.Dest
+			switch shape {
+			case 0: // { max 10 to @a remaining to {bad} }
+				dst = &gen.DstInorder{Clauses: []*gen.DstClause{{Cap: gen.Mon("COIN", "10"), To: &gen.To{D: &gen.DstAccount{E: gen.Acct("a")}}}}, Remaining: &gen.To{D: inner}}
+			case 1: // { max 10 to @a max 5 to {bad} remaining to @b }
+				dst = &gen.DstInorder{Clauses: []*gen.DstClause{{Cap: gen.Mon("COIN", "10"), To: &gen.To{D: &gen.DstAccount{E: gen.Acct("a")}}}, {Cap: gen.Mon("COIN", "5"), To: &gen.To{D: inner}}}, Remaining: &gen.To{D: &gen.DstAccount{E: gen.Acct("b")}}}
+			default: // { 0% to {bad} remaining to @b }
+				dst = &gen.DstAllot{Items: []*gen.DstAllotItem{{A: gen.Port("0%"), To: &gen.To{D: inner}}, {A: &gen.Remaining{}, To: &gen.To{D: &gen.DstAccount{E: gen.Acct("b")}}}}}
+			}
+			prog := &gen.Program{Vars: []*gen.VarDecl{{Type: &gen.TypeName{Name: "monetary"}, Name: gen.V("m")}},
+				Stmts: []gen.Stmt{&gen.Send{Sent: &gen.SentLit{E: gen.V("m")}, Src: &gen.SrcAccount{E: gen.Acct("world")}, Dst: dst}}}
+			vars := map[string]string{}
+			for _, n := range usedVars(prog) {
+				if n == "p" {
+					prog.Vars = append(prog.Vars, &gen.VarDecl{Type: &gen.TypeName{Name: "portion"}, Name: gen.V("p")})
+					vars["p"] = "1/4"
+				}
+			}
+			text := gen.Text(prog)
+			if !w.Mine(text) {
+				return
+			}
+			w.Owned()
+			pr, ok := mustParse(w, text)
+			if !ok {
+				return
+			}
+			w.Inner(0, func(in *mc.Explorer) {
+				total := int64(in.Choose(13))
+				vars["m"] = fmt.Sprintf("COIN %d", total)
+				out := RunReal(pr, vars, env.New(env.Exact, nil, nil), nil)
+				w.Eval(fmt.Sprint(text, total), true, "unreached-bad-sum:"+out.Class())
+				if out.Panic == "" && out.ErrType != ref.EAllotmentSum {
+					w.Violation("C06.bad-sum-not-rejected:unreached:"+out.Class(), "portions that do not add up to one were not rejected (the allotment sits where nothing reaches it)", len(text), Case{Script: text, Vars: copyVars(vars), Observed: out.Class() + " " + postingsStr(out.Postings)})
 				}
 			})
 		})
